@@ -510,6 +510,9 @@ impl Worker {
             let _ = reply_tx.send(Err(err));
             return;
         }
+        // After a rollover the transaction starts in the new segment: a failed write is cut back
+        // to that position, not to the old segment's.
+        let write_offset = writer_set.writer.write_offset();
 
         #[cfg(feature = "verif-hooks")]
         crate::verif::pause("append:before-write");
